@@ -247,6 +247,8 @@ def autogen_case(ctx, pair):
             script = ag_api.produce_migrations(mc, md_b)
             up, down = script.upgrade_ops, script.downgrade_ops
             result = (list(up.ops), down)
+            schemas_ = fs.inspected_schemas(conn, inc)
+            opts_before = fs.table_options(conn, schemas_)
             if base:
                 ctx.hist("undo_oracle", "skipped: start schema not quiet against its own metadata")
                 return result
@@ -268,6 +270,13 @@ def autogen_case(ctx, pair):
             rest = ag_api.compare_metadata(mc2, md_a)
             ctx.hist("undo_oracle", "executed")
             ctx.extra["undo_executed"] = ctx.extra.get("undo_executed", 0) + 1
+            opts_after = fs.table_options(conn, schemas_)
+            ctx.hist("undo_without_rowid_tables", sum(1 for v in opts_before.values() if v.get("sqlite_with_rowid") is False))
+            if opts_after != opts_before:
+                diff = {k: (opts_before.get(k), opts_after.get(k)) for k in set(opts_before) | set(opts_after)
+                        if opts_before.get(k) != opts_after.get(k)}
+                ctx.fail({"pair": pair, "where": "undo"}, "undo-options: reflected table options differ after upgrade+downgrade "
+                         "(before, after): %s" % diff, impl={"up": [ro.op_json(o) for o in up.ops]}, tags=["undo"])
             if rest:
                 ctx.fail({"pair": pair, "where": "undo"}, "undo: after upgrade+downgrade autogenerate still sees differences from the start schema: %s"
                          % [str(d)[:120] for d in rest][:6], impl={"up": [ro.op_json(o) for o in up.ops]}, tags=["undo"])
@@ -309,7 +318,7 @@ def run(ctx, n=None, rng_name="main"):
     # B: real autogenerate output
     auto_trees, auto_leafs = [], []
     for _ in range(n_pairs):
-        pair = fs.gen_pair(rng, big=ctx.thorough, with_schema=rng.random() < 0.15, c06_class=True)
+        pair = fs.gen_pair(rng, big=ctx.thorough, with_schema=rng.random() < 0.15, c06_class=True, table_opts=True)
         up, down = autogen_case(ctx, pair)
         auto_trees.append((up, down))
         auto_leafs.extend(flatten(up))
